@@ -3,7 +3,7 @@
 import glob, json, os, subprocess, sys
 from concurrent.futures import ThreadPoolExecutor
 jobs = []
-for rnd, base in (("r1", "/root/seeds_in"), ("r2", "/root/seeds_in2"), ("r3", "/root/seeds_in3"), ("r4", "/root/seeds_in4"), ("r5", "/root/seeds_in5"), ("r6", "/root/seeds_in6"), ("r7", "/root/seeds_in7"), ("r8", "/root/seeds_in8")):
+for rnd, base in (("r1", "/root/seeds_in"), ("r2", "/root/seeds_in2"), ("r3", "/root/seeds_in3"), ("r4", "/root/seeds_in4"), ("r5", "/root/seeds_in5"), ("r6", "/root/seeds_in6"), ("r7", "/root/seeds_in7"), ("r8", "/root/seeds_in8"), ("r9", "/root/seeds_in9")):
     for d in sorted(glob.glob(base + "/C*/[ab]")):
         prop, x = d.split("/")[-2:]
         patch = os.path.join(d, "patch.rebased.diff") if os.path.exists(os.path.join(d, "patch.rebased.diff")) else os.path.join(d, "patch.diff")
@@ -14,7 +14,10 @@ if only:
 
 def one(j):
     rnd, prop, x, patch = j
-    r = subprocess.run(["/verif/tools/try_seed.sh", patch, prop], capture_output=True, text=True, timeout=3000)
+    try:
+        r = subprocess.run(["/verif/tools/try_seed.sh", patch, prop], capture_output=True, text=True, timeout=3000)
+    except subprocess.TimeoutExpired:
+        return {"round": rnd, "seed": f"{prop}/{x}", "patch": os.path.basename(patch), "rc": "timeout", "signatures": [], "tail": ["TIMEOUT"]}
     lines = [l for l in r.stdout.splitlines() if l.startswith(("VIOLATION", prop + ":", "PATCH", "MACHINERY"))]
     sigs = sorted({l.split("signature=")[1] for l in lines if "signature=" in l})
     return {"round": rnd, "seed": f"{prop}/{x}", "patch": os.path.basename(patch), "rc": r.returncode, "signatures": sigs[:6], "tail": lines[-1:] }
